@@ -457,6 +457,13 @@ impl Engine {
                 let b = dec_bundle(r);
                 self.ledger.give(&b.items, &sizes, out);
                 bundle_typed_component(b.items.len() as u64 * 2 + (opc - 80) + cb as u64 * 2, out);
+                {
+                    let mut ts: Vec<u64> = b.items.iter().map(|x| x.0).collect();
+                    ts.sort();
+                    if ts.windows(2).any(|p| p[0] == p[1]) {
+                        self.cmd_invalid[cb] = true;
+                    }
+                }
                 let buf = &mut self.cmd[cb];
                 if b.kind == 0 || b.kind >= 10 {
                     let types: Vec<u64> = b.items.iter().map(|x| x.0).collect();
@@ -483,6 +490,13 @@ impl Engine {
                 let h = self.href(r);
                 let k = r.next() as usize;
                 let ts = r.take(k);
+                {
+                    let mut st = ts.clone();
+                    st.sort();
+                    if st.windows(2).any(|p| p[0] == p[1]) {
+                        self.cmd_invalid[cb] = true;
+                    }
+                }
                 dispatch_tuple(&ts, CmdRemoveV(&mut self.cmd[cb], h)).expect("tuple type not in catalogue");
                 self.cmd_counts[cb] += 1;
                 self.emit_c(&mut obs, 0, &[], out);
@@ -518,6 +532,7 @@ impl Engine {
                 spawned.sort();
                 match res {
                     Ok(()) => {
+                        self.cmd_invalid[cb] = false;
                         // (fewer is possible: a recorded despawn may name the handle a recorded spawn is going to get)
                         if spawns_known && spawned.len() > n {
                             out.flag(format!("C11: {n} spawns were recorded but the replay created {} entities", spawned.len()));
@@ -533,6 +548,9 @@ impl Engine {
                         self.emit_c(&mut obs, 0, &spawned, out);
                     }
                     Err(e) => {
+                        if spawns_known && !self.cmd_invalid[cb] {
+                            out.flag("C11: the replay panicked although every recorded bundle was valid (applying the same commands directly does not panic)".to_string());
+                        }
                         self.poisoned[w] = true;
                         // the commands after the one that panicked stay in the buffer and run with the next run_on
                         // (possibly on the other world): the shadow of that world must be re-read then
@@ -551,6 +569,7 @@ impl Engine {
             85 => {
                 let cb = r.next() as usize;
                 self.cmd[cb].clear();
+                self.cmd_invalid[cb] = false;
                 self.cmd_spawns[cb] = 0;
                 self.cmd_counts[cb] = 0;
                 self.emit_c(&mut obs, 0, &[], out);
@@ -558,6 +577,7 @@ impl Engine {
             86 => {
                 let cb = r.next() as usize;
                 self.cmd[cb] = CommandBuffer::new();
+                self.cmd_invalid[cb] = false;
                 self.cmd_spawns[cb] = 0;
                 self.cmd_counts[cb] = 0;
                 self.emit_c(&mut obs, 0, &[], out);
